@@ -597,6 +597,18 @@ def search(ctx):
             ctx.count('driver_runs'); ctx.count('driver_' + drv)
             for f in fails:
                 ctx.fail(f['signature'], f'[entry point {drv}, k={k}, {name}] ' + f['what'], dict(kind='sim', cfg=cfg, driver=drv, k=k))
+    # always exercised: sub-modules that the loop does not step itself (the pools inside a MixingPools container) on a FINER own
+    # timestep than the simulation: several of their steps fall inside one simulation step
+    for pdt in (0.5, 0.25):
+        cfg = dict(n_agents=120, rand_seed=5 + ctx.seed, unit='year', dt=1.0, start=2000, dur=5, demographics=[],
+                   diseases=[dict(type='sis', beta=0.2, init_prev=0.2, dur_inf=3)], networks=[dict(type='agepools', cut=15, beta=0.3, dt=pdt)])
+        try:
+            fails = oracle_run(cfg, 'plain', 0)
+        except Exception as e:
+            ctx.count('driver_exceptions'); ctx.notes['last_driver_exception'] = f'pools-finer/{pdt}: {type(e).__name__}: {e}'; continue
+        ctx.count('pools_finer_runs')
+        for f in fails:
+            ctx.fail(f['signature'], f'[mixing pools on dt={pdt} in a dt=1 sim] ' + f['what'], dict(kind='sim', cfg=cfg, driver='plain', k=0))
     # a user module that calls other modules' step() once more per step (repeated calls inside one timestep), for every
     # kind of module, on a rotating part of the zoo (all of it in the thorough tier) and on generated configurations
     allzoo = zoo.configs()
